@@ -51,7 +51,17 @@ void br_ssl_engine_switch_ccm_in(br_ssl_engine_context *cc, int is_client, int p
 void br_ssl_engine_switch_ccm_out(br_ssl_engine_context *cc, int is_client, int prf_id, const br_block_ctrcbc_class *bc_impl, size_t cipher_key_len, size_t tag_len) { (void)cc; (void)is_client; (void)prf_id; (void)bc_impl; (void)cipher_key_len; (void)tag_len; }
 void br_ssl_engine_switch_chapol_in(br_ssl_engine_context *cc, int is_client, int prf_id) { (void)cc; (void)is_client; (void)prf_id; }
 void br_ssl_engine_switch_chapol_out(br_ssl_engine_context *cc, int is_client, int prf_id) { (void)cc; (void)is_client; (void)prf_id; }
-void br_hmac_drbg_generate(br_hmac_drbg_context *ctx, void *out, size_t len) { (void)ctx; c05_need_w(out, len); }
+/* DRBG stand-in: never yields a zero first byte (the non-zero-padding retry loop of make_pms_rsa
+   then runs once per byte; further iterations would repeat the same call) */
+void
+br_hmac_drbg_generate(br_hmac_drbg_context *ctx, void *out, size_t len)
+{
+	(void)ctx;
+	c05_need_w(out, len);
+	if (len > 0) {
+		((unsigned char *)out)[0] = (unsigned char)(ND_U8() | 1);
+	}
+}
 void br_ccopy(uint32_t ctl, void *dst, const void *src, size_t len) { (void)ctl; c05_need_r(src, len); c05_need_w(dst, len); }
 void br_multihash_zero(br_multihash_context *ctx) { (void)ctx; }
 void br_multihash_init(br_multihash_context *ctx) { (void)ctx; }
@@ -70,7 +80,7 @@ br_multihash_out(const br_multihash_context *ctx, int id, void *dst)
 }
 
 /* ------------------------------------------------------------------ pointer seams */
-static unsigned char c05_k1[8], c05_k2[8];
+static unsigned char c05_k1[64], c05_k2[8];
 static br_x509_pkey c05_pkey;
 static int c05_x_calls;
 static void c05_x_start_chain(const br_x509_class **ctx, const char *server_name) { (void)ctx; (void)server_name; c05_x_calls ++; }
@@ -112,15 +122,17 @@ c05_pkey_setup(void)
 	}
 	if (c05_pkey.key_type == BR_KEYTYPE_EC) {
 		size_t q = ND_SIZE();
-		ASSUME(q <= sizeof c05_k1);
+		ASSUME(q <= 8);
 		c05_pkey.key.ec.curve = ND_INT();
 		c05_pkey.key.ec.q = c05_k1;
 		c05_pkey.key.ec.qlen = q;
 	} else {
 		size_t n = ND_SIZE(), e = ND_SIZE();
-		ASSUME(n <= sizeof c05_k1 && e <= sizeof c05_k2);
+		ASSUME(n <= 8 && e <= sizeof c05_k2);
 		if (c05_force_kt == BR_KEYTYPE_RSA) {
-			n = sizeof c05_k1; e = 3;      /* concrete lengths: lets symbolic execution see "modulus shorter than 59 bytes" */
+			/* two concrete modulus lengths: 8 bytes (refused as too short) and 64 bytes (accepted), no leading zero */
+			n = (ND_U8() & 1) ? 8 : sizeof c05_k1; e = 3;
+			ASSUME(c05_k1[0] != 0);
 		}
 		c05_pkey.key.rsa.n = c05_k1;
 		c05_pkey.key.rsa.nlen = n;
